@@ -412,6 +412,18 @@ func (t *Tr) callInner(instr ssa.Instruction, cc *ssa.CallCommon, pos token.Pos,
 			}
 		}
 	}
+	// a small, loop-free, effect-free helper of the module without a contract (typically a predicate somebody extracted
+	// from the caller) is read for what it computes: its result is the expression its body evaluates to on these arguments
+	if callee != nil && rtypes.Len() == 1 && !cc.IsInvoke() && inModule(callee) && t.sp.Contracts[funcKey(callee)] == nil {
+		if sum, ok := t.pureSummary(callee, cc.Args, st); ok {
+			res := t.callResults(instr, rtypes, st)
+			if res != nil && res.T.Sort == sum.Sort {
+				t.c.assert(eq(res.T, sum))
+				t.trusted["small effect-free helpers without a contract are read as the expression they compute ("+callee.Name()+")"] = true
+				return res
+			}
+		}
+	}
 	// no contract: havoc the computed frame
 	if callee != nil && !inModule(callee) {
 		t.trusted["library call "+callee.String()+" (results unconstrained; writes only through slice arguments)"] = true
@@ -547,6 +559,206 @@ func nilSafeGetter(fn *ssa.Function) (int, bool) {
 		}
 	}
 	return fa.Field, true
+}
+
+// pureSummary evaluates a loop-free function made only of comparisons, arithmetic, boolean structure (branches and
+// phis), conversions between integer types, nil tests, len(), field reads through its pointer arguments and returns;
+// anything else (a store, a call, an allocation, a loop, a panic) makes it give up. Values of the body are mapped to
+// terms over the caller's arguments and the caller's current state.
+func (t *Tr) pureSummary(fn *ssa.Function, args []ssa.Value, st *State) (Term, bool) {
+	if fn == nil || len(fn.Blocks) == 0 || len(fn.Blocks) > 12 || len(fn.Params) != len(args) || fn.Signature.Results().Len() != 1 {
+		return Term{}, false
+	}
+	ninstr := 0
+	for _, b := range fn.Blocks {
+		ninstr += len(b.Instrs)
+	}
+	if ninstr > 60 {
+		return Term{}, false
+	}
+	// topological order of the blocks; a cycle (loop) makes it give up
+	state := map[int]int{}
+	var order []*ssa.BasicBlock
+	cyclic := false
+	var dfs func(b *ssa.BasicBlock)
+	dfs = func(b *ssa.BasicBlock) {
+		state[b.Index] = 1
+		for _, s := range b.Succs {
+			switch state[s.Index] {
+			case 0:
+				dfs(s)
+			case 1:
+				cyclic = true
+			}
+		}
+		state[b.Index] = 2
+		order = append(order, b)
+	}
+	dfs(fn.Blocks[0])
+	if cyclic {
+		return Term{}, false
+	}
+	for i, j := 0, len(order)-1; i < j; i, j = i+1, j-1 {
+		order[i], order[j] = order[j], order[i]
+	}
+	vals := map[ssa.Value]Term{}
+	locs := map[ssa.Value]*Loc{}
+	for i, p := range fn.Params {
+		vals[p] = t.term(args[i])
+	}
+	get := func(v ssa.Value) (Term, bool) {
+		if x, ok := vals[v]; ok {
+			return x, true
+		}
+		if c, ok := v.(*ssa.Const); ok {
+			x := t.term(c)
+			return x, x.S != ""
+		}
+		return Term{}, false
+	}
+	reach := map[int]Term{0: tTrue}
+	edge := map[[2]int]Term{}
+	var result Term
+	haveResult := false
+	for _, b := range order {
+		r, ok := reach[b.Index]
+		if !ok {
+			var ins []Term
+			for _, p := range b.Preds {
+				if e, ok := edge[[2]int{p.Index, b.Index}]; ok {
+					ins = append(ins, e)
+				}
+			}
+			if len(ins) == 0 {
+				continue
+			}
+			r = or(ins...)
+			reach[b.Index] = r
+		}
+		for _, in := range b.Instrs {
+			switch x := in.(type) {
+			case *ssa.DebugRef:
+			case *ssa.Phi:
+				var acc Term
+				first := true
+				for i, p := range b.Preds {
+					e, ok := edge[[2]int{p.Index, b.Index}]
+					if !ok {
+						continue
+					}
+					v, ok := get(x.Edges[i])
+					if !ok {
+						return Term{}, false
+					}
+					if first {
+						acc, first = v, false
+					} else {
+						acc = ite(e, v, acc)
+					}
+				}
+				if first {
+					return Term{}, false
+				}
+				vals[x] = acc
+			case *ssa.BinOp:
+				a, ok1 := get(x.X)
+				c, ok2 := get(x.Y)
+				if !ok1 || !ok2 {
+					return Term{}, false
+				}
+				switch x.Op {
+				case token.QUO, token.REM, token.SHL, token.SHR:
+					return Term{}, false // may panic / needs care
+				}
+				vals[x] = t.binop(x.Op, x.X.Type(), x.Type(), a, c, token.NoPos)
+			case *ssa.UnOp:
+				switch x.Op {
+				case token.NOT:
+					a, ok := get(x.X)
+					if !ok {
+						return Term{}, false
+					}
+					vals[x] = not(a)
+				case token.MUL: // load
+					l, ok := locs[x.X]
+					if !ok {
+						return Term{}, false
+					}
+					vals[x] = t.c.locRead(st, l)
+				default:
+					return Term{}, false
+				}
+			case *ssa.FieldAddr:
+				base, ok := get(x.X)
+				if !ok {
+					return Term{}, false
+				}
+				styp := deref(x.X.Type())
+				sst, ok := styp.Underlying().(*types.Struct)
+				if !ok {
+					return Term{}, false
+				}
+				comp, _ := t.regField(styp, x.Field)
+				locs[x] = &Loc{Kind: "field", Comp: comp, Idx: base, Typ: sst.Field(x.Field).Type()}
+			case *ssa.Convert:
+				a, ok := get(x.X)
+				if !ok {
+					return Term{}, false
+				}
+				bf, ok1 := x.X.Type().Underlying().(*types.Basic)
+				bt, ok2 := x.Type().Underlying().(*types.Basic)
+				if !ok1 || !ok2 || bf.Info()&types.IsInteger == 0 || bt.Info()&types.IsInteger == 0 {
+					return Term{}, false
+				}
+				// widening or same-size signed conversions only
+				if t.c.sortOf(x.Type()) != SInt || bt.Info()&types.IsUnsigned != bf.Info()&types.IsUnsigned {
+					return Term{}, false
+				}
+				vals[x] = a
+			case *ssa.ChangeType:
+				a, ok := get(x.X)
+				if !ok {
+					return Term{}, false
+				}
+				vals[x] = a
+			case *ssa.Call:
+				if b, ok := x.Call.Value.(*ssa.Builtin); ok && b.Name() == "len" && len(x.Call.Args) == 1 {
+					a, ok := get(x.Call.Args[0])
+					if !ok || a.Sort != SSlice {
+						return Term{}, false
+					}
+					vals[x] = sLen(a)
+					continue
+				}
+				return Term{}, false
+			case *ssa.If:
+				c, ok := get(x.Cond)
+				if !ok || len(b.Succs) != 2 {
+					return Term{}, false
+				}
+				edge[[2]int{b.Index, b.Succs[0].Index}] = and(r, c)
+				edge[[2]int{b.Index, b.Succs[1].Index}] = and(r, not(c))
+			case *ssa.Jump:
+				edge[[2]int{b.Index, b.Succs[0].Index}] = r
+			case *ssa.Return:
+				if len(x.Results) != 1 {
+					return Term{}, false
+				}
+				v, ok := get(x.Results[0])
+				if !ok {
+					return Term{}, false
+				}
+				if !haveResult {
+					result, haveResult = v, true
+				} else {
+					result = ite(r, v, result)
+				}
+			default:
+				return Term{}, false
+			}
+		}
+	}
+	return result, haveResult
 }
 
 func isErrorCtor(name string) bool {
